@@ -195,6 +195,22 @@ class Run:
         binp = self.build(race)
         name = name or (family + "-" + (prop or self.prop))
         out = os.path.join(self.dir, name + ".results.ndjson")
+        # what the model expects of the cases of this file (a family that expects an error of every case decides little)
+        try:
+            kinds = {}
+            with open(cases) as f:
+                for line in f:
+                    if '"expect"' not in line:
+                        continue
+                    rec = json.loads(line)
+                    exps = [rec["expect"]] if isinstance(rec.get("expect"), dict) else []
+                    exps += [o["expect"] for o in rec.get("ops", []) if isinstance(o, dict) and isinstance(o.get("expect"), dict)]
+                    for x in exps:
+                        kinds[x.get("kind", "?")] = kinds.get(x.get("kind", "?"), 0) + 1
+            if kinds:
+                self.counts.setdefault("expectation_kinds", {})[name] = kinds
+        except (OSError, ValueError):
+            pass
         e = dict(os.environ, TWH_PROP=prop or self.prop, VERIF_SEED=str(self.seed), TWH_SCRATCH=self.dir)
         if env:
             e.update(env)
